@@ -443,6 +443,7 @@ func c22(c *an.Check) {
 	}())
 	// (d) the Opened announcement carries an epoch value read under the lock (covered by LOCKSET on seqno, incl. pointer dereferences)
 	releaseGates(c, "session")
+	clientEpochReset(c)
 	serverLockset(c)
 	c.Note("not decided: the full announcement-order history over all interleavings")
 }
